@@ -26,6 +26,7 @@ import binascii
 from typing import Tuple, Union
 
 from nacl import bindings
+from nacl import exceptions as nacl_exceptions
 
 from bip_utils.utils.misc import BytesUtils, IntegerUtils
 
@@ -296,10 +297,13 @@ def point_scalar_mul(scalar: Union[bytes, int],
     Returns:
         bytes: New point resulting from the multiplication
     """
-    return bindings.crypto_scalarmult_ed25519_noclamp(
-        scalar if isinstance(scalar, bytes) else int_encode(scalar),
-        point if isinstance(point, bytes) else point_encode(point)
-    )
+    try:
+        return bindings.crypto_scalarmult_ed25519_noclamp(
+            scalar if isinstance(scalar, bytes) else int_encode(scalar),
+            point if isinstance(point, bytes) else point_encode(point)
+        )
+    except nacl_exceptions.RuntimeError as ex:
+        raise ValueError("Invalid scalar multiplication (the result is the identity point)") from ex
 
 
 def point_scalar_mul_base(scalar: Union[bytes, int]) -> bytes:
@@ -312,9 +316,12 @@ def point_scalar_mul_base(scalar: Union[bytes, int]) -> bytes:
     Returns:
         bytes: New point resulting from the multiplication
     """
-    return bindings.crypto_scalarmult_ed25519_base_noclamp(
-        scalar if isinstance(scalar, bytes) else int_encode(scalar)
-    )
+    try:
+        return bindings.crypto_scalarmult_ed25519_base_noclamp(
+            scalar if isinstance(scalar, bytes) else int_encode(scalar)
+        )
+    except nacl_exceptions.RuntimeError as ex:
+        raise ValueError("Invalid scalar multiplication (the result is the identity point)") from ex
 
 
 def scalar_reduce(scalar: Union[bytes, int]) -> bytes:
